@@ -41,9 +41,8 @@ def must_see(tier):
             m['%s:%s' % (impl, f)] = 10
         m[impl + ':ghost-operands'] = 20
         m[impl + ':operand:single-child-root'] = 5
-    m['c:unhashable-key-case'] = 20
-    m['py:unhashable-key-case'] = 20
         m[impl + ':operand:height>=3'] = 20
+        m[impl + ':unhashable-key-case'] = 20
     return m
 
 
